@@ -222,19 +222,19 @@ Fixpoint ok_from (cfg : config) (s : sp) (ops : list op) (obs : list obs) : bool
           let s1 := if err then s
                     else {| p_D := p_D s; p_env := p_env s; p_dirtyL := p_dirtyL s; p_covL := []; p_dirtyK := p_dirtyK s;
                             p_covK := []; p_dirtyAll := p_dirtyAll s; p_covAll := false; p_freshq := false; p_told := p_told s |} in
+          (* a LinkByName that (falsely) answered "no such interface" during this Apply has told Felix something untrue:
+             nothing can be expected about that interface's routes until it is reported again or a resync is asked for *)
+          let lied := flat_map (fun e => match e with (NLinkByName n, _, FNotFound) => [n] | _ => [] end) p in
+          let s2 := {| p_D := p_D s1; p_env := p_env s1; p_dirtyL := lied ++ p_dirtyL s1; p_covL := p_covL s1; p_dirtyK := p_dirtyK s1;
+                       p_covK := p_covK s1; p_dirtyAll := p_dirtyAll s1; p_covAll := p_covAll s1; p_freshq := false; p_told := p_told s1 |} in
           let c := if err then true
-                   else match p_dirtyL s1 with
-                        | [] => if p_dirtyAll s1 then true else ok_converged cfg s1 after
+                   else match p_dirtyL s2 with
+                        | [] => if p_dirtyAll s2 then true else ok_converged cfg s2 after
                         | _ => true
                         end in
-          let s2 := {| p_D := p_D s1; p_env := {| e_links := e_links (p_env s1); e_routes := after; e_now := e_now (p_env s1) |};
-                       p_dirtyL := p_dirtyL s1; p_covL := p_covL s1; p_dirtyK := p_dirtyK s1; p_covK := p_covK s1;
-                       p_dirtyAll := p_dirtyAll s1; p_covAll := p_covAll s1; p_freshq := false; p_told := p_told s1 |} in
-          (* a LinkByName that (falsely) answered "no such interface" has told Felix something untrue *)
-          let s3 := fold_left (fun s e => match e with
-                                          | (NLinkByName n, _, FNotFound) => dirt_link s n
-                                          | _ => s
-                                          end) p s2 in
+          let s3 := {| p_D := p_D s2; p_env := {| e_links := e_links (p_env s2); e_routes := after; e_now := e_now (p_env s2) |};
+                       p_dirtyL := p_dirtyL s2; p_covL := p_covL s2; p_dirtyK := p_dirtyK s2; p_covK := p_covK s2;
+                       p_dirtyAll := p_dirtyAll s2; p_covAll := p_covAll s2; p_freshq := false; p_told := p_told s2 |} in
           f && c && ok_from cfg s3 ops' obs'
       end
   | o :: ops' => ok_from cfg (sp_step cfg o s) ops' obs
